@@ -468,11 +468,12 @@ impl<'a> Ctx<'a> {
     }
 }
 
-/// per-case time limit: 2 s for small inputs, 20 s otherwise (normal cost is < 50 ms)
+/// per-case time limit: generous (normal cost is < 50 ms) so that a loaded machine cannot
+/// turn into a verdict; a hang is confirmed by the driver in a fresh process anyway
 pub fn limit_for(len: usize) -> u64 {
     if len <= 4096 {
-        4_000
+        20_000
     } else {
-        40_000
+        120_000
     }
 }
